@@ -1,4 +1,5 @@
 import Driver.Registry
+import Driver.Gated
 open Driver
 
 def main (args : List String) : IO UInt32 := do
@@ -6,4 +7,5 @@ def main (args : List String) : IO UInt32 := do
   let stdout ← IO.getStdout
   match args with
   | ["registry"] => loop stdin stdout Driver.Registry.stepLine Evl.Registry.init; return 0
+  | ["gated"] => loop stdin stdout Driver.Gated.stepLine {}; return 0
   | _ => IO.eprintln "usage: evldriver <model>"; return 2
